@@ -44,6 +44,61 @@ def chain_guards(eng: Engine, fn: FuncInfo, call: ast.AST, chain) -> list[tuple[
     return gs
 
 
+def listening_ports_definition(eng: Engine, ck: Check):
+    """What `SetListenPort` announces is what get_listening_ports() returns: a PAIR whose element i is the port of listening connection i
+    when that connection is CONNECTED and 0 otherwise (position 0 = clear port, position 1 = obfuscated port: a port that moves to the
+    other position tells the server that the obfuscated listener speaks the plain protocol)."""
+    fn = eng.func('network/network.py', 'Network.get_listening_ports')
+    ck.visited(fn)
+    rets = [r for r in walk_local(fn.node) if isinstance(r, ast.Return) and r.value is not None]
+    nested = {g.name: g for g in eng.repo.all_funcs() if g.outer is fn}
+
+    def port_of(e: ast.AST, i: int) -> bool:
+        """`e` is: port of self.listening_connections[i] if that connection is set and CONNECTED, else 0"""
+        want = f'self.listening_connections[{i}]'
+
+        def guarded_port(conds, leaf, subject: str) -> Optional[bool]:
+            """leaf `<subject>.port` under (subject truthy) and (subject.state == CONNECTED) -> True; constant 0 -> None (neutral); else False"""
+            if isinstance(leaf, ast.Constant) and leaf.value == 0:
+                return None
+            if unparse(leaf) != f'{subject}.port':
+                return False
+            pos = [(x_, p_) for x_, p_ in conds]
+            truthy = any(p_ and unparse(x_) == subject for x_, p_ in pos) or any(
+                (not p_) and isinstance(x_, ast.Compare) and unparse(x_.left) == subject and isinstance(x_.ops[0], ast.Is) and is_none_const(x_.comparators[0]) for x_, p_ in pos) or \
+                any(p_ and isinstance(x_, ast.Compare) and unparse(x_.left) == subject and isinstance(x_.ops[0], ast.IsNot) and is_none_const(x_.comparators[0]) for x_, p_ in pos)
+            conn = any(p_ and mentions_attr(x_, 'state') and unparse(x_).startswith(f'{subject}.state') and enum_members_in(x_) == {'CONNECTED'} and
+                       isinstance(x_, ast.Compare) and isinstance(x_.ops[0], (ast.Eq, ast.Is)) for x_, p_ in pos)
+            return truthy and conn
+        if isinstance(e, ast.Call) and isinstance(e.func, ast.Name) and e.func.id in nested and len(e.args) == 1 and not e.keywords and unparse(e.args[0]) == want:
+            g = nested[e.func.id]
+            if len(g.params) != 1:
+                return False
+            verdicts = []
+            for r in [r_ for r_ in walk_local(g.node) if isinstance(r_, ast.Return)]:
+                if r.value is None:
+                    return False
+                for conds, leaf in cond_values(eng, g, r):
+                    flat = [(x2, p2) for x_, p_ in conds for x2, p2 in split_conj(x_, p_)]
+                    verdicts.append(guarded_port(flat, leaf, g.params[0]))
+            return True in verdicts and False not in verdicts and None in verdicts
+        verdicts = []
+        for conds, leaf in ifexp_cases(e):
+            verdicts.append(guarded_port(list(conds), leaf, want))
+        return True in verdicts and False not in verdicts and None in verdicts
+    ok = len(rets) == 1 and isinstance(rets[0].value, ast.Tuple) and len(rets[0].value.elts) == 2
+    why = 'the result is not one 2-tuple'
+    if ok:
+        for i, el in enumerate(rets[0].value.elts):
+            e = expand_aliases(fn, el, 2)
+            if not port_of(e, i):
+                ok = False
+                why = f'element {i} is `{unparse(e)[:70]}`: not established as "port of listening connection {i} if it is connected, else 0"'
+                break
+    ck.ob('R-C16-ADVERT', fn, fn.node, 'get_listening_ports() returns (clear port, obfuscated port): element i is the port of listening connection i when it is '
+          'CONNECTED, 0 otherwise -- by position, not by arrival', ok, why, construct='listening ports by position')
+
+
 def run(eng: Engine, ck: Check):
     repo = eng.repo
     hs = session_handlers(eng)
@@ -83,6 +138,7 @@ def run(eng: Engine, ck: Check):
                 return unparse(expand_aliases(fn, it))
         return ''
 
+    listening_ports_definition(eng, ck)
     row('Network', 'SetListenPort.Request', 'connected listening ports', always,
         lambda fn, c, ch: (any('get_listening_ports' in unparse(v) for v in single_assignments(fn).values()) or
                            any(isinstance(n, ast.Assign) and 'get_listening_ports' in unparse(n.value) for n in walk_local(fn.node)),
